@@ -751,6 +751,9 @@ func (x *CreateMessageWithToolsParams) SetProgressToken(t any) { setProgressToke
 func (p *CreateMessageWithToolsParams) toBase() (*CreateMessageParams, error) {
 	var msgs []*SamplingMessage
 	for _, m := range p.Messages {
+		if m == nil {
+			return nil, fmt.Errorf("message is null")
+		}
 		if len(m.Content) > 1 {
 			return nil, fmt.Errorf("message has %d content blocks; use CreateMessageWithToolsHandler to support multiple content", len(m.Content))
 		}
